@@ -5,7 +5,11 @@ C04 — Scan conversion covers exactly the pixels whose centres are inside.
   `Retro.Props.C04.Slice` : triangle level — `trifill_covers_iff`: covered ⇔ the pixel centre lies in
                             the half-open horizontal slice of the triangle
   `Retro.Props.C04.Order` : `trifill_covers_order_independent` — all six vertex orders cover the same pixels
+  `Retro.Props.C04.Edge`  : the slice rule IS the three-edge-function test with a top-left-style tie rule
+                            (`sliceRule_iff_inside`, `trifill_covers_iff_inside`), `inside_perm`, and the
+                            shared-edge partition (`trifill_shared_edge_no_overlap`, `…_no_gap`), `inside_bary`
 -/
 import Retro.Props.C04.Scan
 import Retro.Props.C04.Slice
 import Retro.Props.C04.Order
+import Retro.Props.C04.Edge
